@@ -25,7 +25,12 @@ type KnownFinding struct {
 	Note       string `json:"note,omitempty"`
 }
 
-type LockFile map[string][]string
+type LockEntry struct {
+	Claimed   []string          `json:"claimed"`
+	Unclaimed map[string]string `json:"unclaimed,omitempty"` // sweep obligations not claimed: name -> why
+}
+
+type LockFile map[string]*LockEntry
 
 type checkOpts struct {
 	prop, tier, repo, verif, contracts string
@@ -115,8 +120,53 @@ func runCheck(o checkOpts) int {
 	var vcs []*VC
 	var fails []failure
 	trusted := []string{}
-	for _, name := range fnames {
+	// zero-annotation panic sweep: functions named by sweep directives are
+	// verified as "nopanic" without needing a contract of their own
+	sweepSet := map[string]bool{}
+	for _, d := range c.cf.Sweeps {
+		if d.Prop != prop {
+			continue
+		}
+		for _, f := range d.Funcs {
+			sweepSet[f] = true
+		}
+		if d.File != "" {
+			for name, fn := range c.funcs {
+				if fn.Pos().IsValid() && shortFile(c.fset.Position(fn.Pos()).Filename) == d.File && fn.Blocks != nil {
+					sweepSet[name] = true
+				}
+			}
+		}
+	}
+	inList := map[string]bool{}
+	for _, n := range fnames {
+		inList[n] = true
+	}
+	var sweepNames []string
+	for n := range sweepSet {
+		if !inList[n] && (o.only == "" || strings.Contains(n, o.only)) {
+			sweepNames = append(sweepNames, n)
+		}
+	}
+	sort.Strings(sweepNames)
+	type job struct {
+		name  string
+		sweep bool
+	}
+	var jobs []job
+	for _, n := range fnames {
+		jobs = append(jobs, job{n, sweepSet[n]})
+	}
+	for _, n := range sweepNames {
+		jobs = append(jobs, job{n, true})
+	}
+	fnames = append(fnames, sweepNames...)
+	for _, jb := range jobs {
+		name := jb.name
 		fc := c.cf.Funcs[name]
+		if fc == nil {
+			fc = &FuncContract{Name: name}
+		}
 		if strings.HasPrefix(name, "dyn ") || strings.Contains(name, ".") && c.funcs[name] == nil && !strings.HasPrefix(name, "(") {
 			// interface-method / dynamic contracts are assumptions, not verified here
 			trusted = append(trusted, name)
@@ -133,7 +183,7 @@ func runCheck(o checkOpts) int {
 			fails = append(fails, failure{o: ob, reason: "anchor-lost: function under contract not found in /repo"})
 			continue
 		}
-		vc, err := c.verifyFunc(fn, fc, prop, false)
+		vc, err := c.verifyFunc(fn, fc, prop, jb.sweep)
 		if err != nil {
 			ob := &Obligation{Name: name + "#encode", Kind: "encode", Fn: name, Status: "error", Backend: "ssa-scan"}
 			obls = append(obls, ob)
@@ -141,6 +191,11 @@ func runCheck(o checkOpts) int {
 			continue
 		}
 		vcs = append(vcs, vc)
+		if jb.sweep && !inList[name] {
+			for _, ob := range vc.obls {
+				ob.Sweep = true
+			}
+		}
 		obls = append(obls, vc.obls...)
 	}
 	// scan obligations (frame.write / effect.call / guard.recover / lang.incl ...)
@@ -183,6 +238,8 @@ func runCheck(o checkOpts) int {
 	solverTime := 0.0
 	var kfLines []string
 	var extraObls []*Obligation
+	var unclaimedSeen []string
+	newUnclaimed := map[string]string{}
 	for _, ob := range obls {
 		byName[ob.Name] = ob
 		solverTime += ob.TimeS
@@ -216,6 +273,16 @@ func runCheck(o checkOpts) int {
 				continue
 			}
 			fails = append(fails, failure{o: ob, reason: ob.Model})
+			continue
+		}
+		if le := lock[prop]; le != nil && !o.updateLock {
+			if why, un := le.Unclaimed[ob.Name]; un {
+				unclaimedSeen = append(unclaimedSeen, ob.Name+" ("+why+"; now "+ob.Status+")")
+				continue
+			}
+		}
+		if o.updateLock && ob.Sweep && ob.Status != "unsat" {
+			newUnclaimed[ob.Name] = "not discharged without further contracts when locked (" + ob.Status + ")"
 			continue
 		}
 		nClaimed++
@@ -268,18 +335,27 @@ func runCheck(o checkOpts) int {
 	}
 	sort.Strings(genNames)
 	if o.updateLock {
-		lock[prop] = genNames
+		var claimed []string
+		for _, n := range genNames {
+			if _, un := newUnclaimed[n]; !un {
+				claimed = append(claimed, n)
+			}
+		}
+		lock[prop] = &LockEntry{Claimed: claimed, Unclaimed: newUnclaimed}
 		b, _ := json.MarshalIndent(lock, "", " ")
 		os.WriteFile(filepath.Join(o.verif, "obligations.lock"), append(b, '\n'), 0o644)
 	}
+	if lock[prop] == nil {
+		lock[prop] = &LockEntry{}
+	}
 	if o.only == "" {
-		for _, n := range lock[prop] {
+		for _, n := range lock[prop].Claimed {
 			if byName[n] == nil {
 				ob := &Obligation{Name: n, Kind: "anchor", Status: "missing", Backend: "ssa-scan"}
 				fails = append(fails, failure{o: ob, reason: "anchor-lost: locked obligation is no longer generated from /repo"})
 			}
 		}
-		if len(lock[prop]) == 0 && !o.updateLock {
+		if len(lock[prop].Claimed) == 0 && !o.updateLock {
 			return fatal("no locked obligations for " + prop + " (obligations.lock missing or empty)")
 		}
 	}
@@ -387,6 +463,7 @@ func runCheck(o checkOpts) int {
 			"assumed_contract_clauses_used": assumedClauses,
 			"constructs_outside_modelled_subset": unsupported,
 			"known_findings_reported": kfLines,
+			"sweep_obligations_not_claimed": unclaimedSeen,
 			"scan": scanInfo,
 			"mutants": mutRes,
 			"integers": "64/32/16/8-bit two's-complement bit-vectors (machine arithmetic, wrapping); float64 = SMT FloatingPoint(11,53) RNE; int->float conversion abstracted as an uninterpreted finite-valued function",
